@@ -49,9 +49,12 @@ def run():
     native_src = copy_repo("native-src")
     e1.run_harnesses(rep, "C20", src, specs, jobs=8, timeout=1500 if tier() == "quick" else 3600,
                      replayer=e1.fs_replayer("lock", OPS))
+    from obligations import C20_e2
+    from common import Inconclusive, Obligation
     try:
-        from obligations import C20_e2
         C20_e2.add(rep)
-    except ImportError:
-        pass
+    except Inconclusive as ex:
+        o = Obligation("lock semantics", "E2 mirsym/z3")
+        o.verdict, o.detail = "inconclusive", str(ex)
+        rep.add(o)
     return rep
